@@ -25,6 +25,13 @@ def run(run, model):
                 ok, detail, node = ck.gate(ev, later, user_value=True)
                 run.check(ok, "C11.no-drop", "%s:%s" % (ck.fi.qual, kind), "the error returned by the evaluation is tested and raised; never discarded", detail, ck.loc(node), None, first_line(node.stmt))
     run.do(c09.invariant_raise_site, model, "C11.no-drop")
+    # ... nor inside the evaluation helpers: an error, once created, reaches the wrapper (tested for presence)
+    from . import loops
+    for role, ck in gates.checkers(model).items():
+        for kind, depth in (("PRE", 2), ("POST", 1)):
+            h = loops.helper_of(model, ck, kind)
+            if h is not None:
+                run.do(loops.verdict_rule, model, "C11.no-drop-in-helper", h[0], h[1], h[2], depth)
     run.minimum("C11.release-on-all-exits", 5)
     run.minimum("C11.handlers", 3, "not_check, message generation, at least one self-lookup")
     run.minimum("C11.finally-clean", 5)
